@@ -1,17 +1,11 @@
 /-
   C16 — loading an attestation file always terminates with a usable verdict.
+  (Proofs: `Proofs/CertWalk.lean`, `Proofs/CertSave.lean`.)
 -/
-import PowHsm.Admin.CertGraph
+import PowHsm.Proofs.CertSave
 namespace PowHsm
 namespace Props.C16
 open Cert
-
-theorem lookup_name {els : List Elem} {n : String} {e : Elem} (h : lookup els n = some e) :
-    e.name = n ∧ e ∈ els := by
-  unfold lookup at h
-  have h1 := List.find?_some h
-  have h2 := List.mem_of_find?_eq_some h
-  exact ⟨by simpa using h1, by simpa using h2⟩
 
 /-- **Termination of the sanity walk** (the `while True` loop with `visited`): the visited
     names are distinct names of elements, so `|elements| + 1 - |visited|` steps of fuel are never
@@ -20,60 +14,15 @@ theorem sanity_never_out_of_fuel (root : String) (els : List Elem) :
     ∀ (fuel : Nat) (visited : List String) (cur : Elem),
       visited.Nodup → (∀ v ∈ visited, v ∈ els.map (·.name)) → cur ∈ els →
       els.length + 1 ≤ fuel + visited.length →
-      sanityWalk root els fuel visited cur ≠ .outOfFuel := by
-  intro fuel
-  induction fuel with
-  | zero =>
-    intro visited cur hnd hsub _ hlen
-    have := List.Nodup.length_le_of_subset hnd (fun x hx => hsub x hx)
-    simp at this hlen
-    omega
-  | succ fuel ih =>
-    intro visited cur hnd hsub hcur hlen
-    unfold sanityWalk
-    split
-    · simp
-    · split
-      · simp
-      · rename_i hvis _
-        split
-        · simp
-        · rename_i parent hp
-          apply ih
-          · rw [List.nodup_append]
-            refine ⟨hnd, by simp, ?_⟩
-            intro a ha b hb
-            simp at hb; subst hb
-            intro hab; subst hab
-            simp at hvis; exact hvis ha
-          · intro v hv
-            simp at hv
-            rcases hv with hv | hv
-            · exact hsub v hv
-            · subst hv; exact List.mem_map_of_mem hcur
-          · exact (lookup_name hp).2
-          · simp; omega
+      sanityWalk root els fuel visited cur ≠ .outOfFuel :=
+  Cert.sanity_never_out_of_fuel root els
 
 /-- loading terminates: for every target that names an element, the walk ends with a verdict
     (a path to the root, a cycle, or a dangling signer) within `|elements| + 1` steps -/
 theorem sanity_walk_terminates (root : String) (els : List Elem) (target : String) (t : Elem)
     (h : lookup els target = some t) :
     sanityWalk root els (els.length + 1) [] t ≠ .outOfFuel :=
-  sanity_never_out_of_fuel root els _ [] t List.nodup_nil (by simp) (lookup_name h).2 (by simp)
-
-theorem chainUp_ne_nil (root : String) (els : List Elem) (fuel : Nat) (cur : Elem) (chain : List Elem)
-    (h : chainUp root els fuel cur = some chain) : chain ≠ [] := by
-  cases fuel with
-  | zero => simp [chainUp] at h
-  | succ n =>
-    unfold chainUp at h
-    split at h
-    · injection h with h; subst h; simp
-    · split at h
-      · simp at h
-      · simp only [Option.map_eq_some_iff] at h
-        obtain ⟨c, _, rfl⟩ := h
-        simp
+  Cert.sanity_walk_terminates root els target t h
 
 /-- **an accepted certificate has a finite, cycle-free path to the root for the target, and the
     chain walk of validation finds it with the same fuel**: the path's names are distinct, its
@@ -83,44 +32,34 @@ theorem sane_gives_chain (root : String) (els : List Elem) :
       sanityWalk root els fuel visited cur = .ok →
       ∃ chain, chainUp root els fuel cur = some chain ∧
         (chain.getLast?.map (·.signedBy) = some root) ∧
-        (∀ e ∈ chain, ¬ e.name ∈ visited) ∧ (chain.map (·.name)).Nodup := by
-  intro fuel
-  induction fuel with
-  | zero => intro visited cur h; simp [sanityWalk] at h
-  | succ fuel ih =>
-    intro visited cur h
-    unfold sanityWalk at h
-    unfold chainUp
-    split at h
-    · simp at h
-    · rename_i hvis
-      split at h
-      · rename_i hroot
-        refine ⟨[cur], by simp [hroot], ?_, ?_, by simp⟩
-        · simpa using hroot
-        · intro e he; simp at he; subst he; simpa using hvis
-      · rename_i hroot
-        split at h
-        · simp at h
-        · rename_i parent hp
-          obtain ⟨chain, hc, hlast, hvisited, hnd⟩ := ih _ _ h
-          refine ⟨cur :: chain, by simp [hroot, hc], ?_, ?_, ?_⟩
-          · cases chain with
-            | nil => exact absurd rfl (chainUp_ne_nil _ _ _ _ _ hc)
-            | cons c cs => simpa [List.getLast?_cons_cons] using hlast
-          · intro e he
-            simp at he
-            rcases he with rfl | he
-            · simpa using hvis
-            · have := hvisited e he
-              simp at this; exact this.1
-          · simp only [List.map_cons, List.nodup_cons]
-            refine ⟨?_, hnd⟩
-            intro hmem
-            obtain ⟨e, he, hname⟩ := List.mem_map.mp hmem
-            have := hvisited e he
-            simp at this
-            exact this.2 hname
+        (∀ e ∈ chain, ¬ e.name ∈ visited) ∧ (chain.map (·.name)).Nodup :=
+  Cert.sane_gives_chain root els
+
+/-- **what is saved denotes the dictionary that was loaded**: `to_dict` writes one entry per element
+    name, in order of first appearance, with the last value read for that name (`savedElems`); looking
+    any name up in the saved list gives what it gave in the loaded one -/
+theorem saved_same_dictionary (els : List Elem) (n : String) : lookup (savedElems els) n = lookup els n :=
+  (savedElems_sameDict els n).symm
+
+/-- **saving such a certificate and loading it again yields the same verdicts**: for every accepted
+    certificate (any number of elements, duplicated names included), every target and every outcome of
+    the signature checks, `validate_and_get_values` on the list read back from the saved file gives the
+    verdict it gave on the list first loaded — although the two lists differ in length, hence in the
+    bound of both walks.  (The element payloads are carried by `to_dict` field by field: hex fields
+    through `bytes.fromhex ∘ hex`, X.509 bodies through the base64 codec, `Props.C15.x509_message_roundtrip`.) -/
+theorem save_load_same_verdicts (root : String) (els : List Elem) (lv : Option Elem → Elem → Bool)
+    (target : String) (t : Elem) (ht : lookup els target = some t)
+    (hsane : sanityWalk root els (els.length + 1) [] t = .ok) :
+    validateTarget root (savedElems els) lv target = validateTarget root els lv target :=
+  (verdict_of_dict root els (savedElems els) lv (savedElems_sameDict els) target t ht hsane).symm
+
+/-- non-vacuity: a certificate with a duplicated name is saved without the duplicate, and the target's
+    verdict survives -/
+example :
+    let els : List Elem := [⟨"a", "b"⟩, ⟨"b", "root"⟩, ⟨"a", "root"⟩]
+    savedElems els = [⟨"a", "root"⟩, ⟨"b", "root"⟩] ∧
+    sanityWalk "root" els (els.length + 1) [] ⟨"a", "root"⟩ = .ok ∧
+    validateTarget "root" els (fun _ _ => true) "a" = some (.valid ⟨"a", "root"⟩) := by decide
 
 end Props.C16
 end PowHsm
